@@ -14,7 +14,7 @@ def probe_menu(w):
         step.StoreData(1), step.DeleteIfInvalid(1, hashlib.md5(c1).hexdigest(), "md5", len(c1) + 1, True, ", wrong size"))]
 
 
-PROBE_ARGS = dict(pids=["a", "b"], contents=[b"x", b"0123456789ab"], formats=[None], fake_cid=False, sym_dirs=False)
+PROBE_ARGS = dict(pids=["a", "b"], contents=[C_ONE, C_MULTI], formats=[None], fake_cid=False, sym_dirs=False)
 
 
 MINE = {"history:results-depend-on-earlier-calls-on-the-instance", "store-state:dup-line", "store-state:foreign-line", "store-state:unterminated-line", "store-state:pid-ref-garbled", "store-state:tmp-residue", "store-state:delete-marker-residue", "store-state:foreign-file", "bookkeeping-not-exact", "result-class", "model:bind", "model:obj",
